@@ -40,8 +40,9 @@ def _run(case):
             open(os.path.join(d, n), "wb").write(DOCS[k].encode("utf-8"))
             names.append(n)
         argv = []
-        for (pid, fix, level, cbs, default) in recs:
-            argv += ["--add-plugin", recgen.make(d, pid, fix, level, cbs, default)]
+        for rec in recs:
+            pid, fix, level, cbs, default = rec[:5]
+            argv += ["--add-plugin", recgen.make(d, pid, fix, level, cbs, default, trigger=len(rec) > 5 and rec[5])]
         log = os.path.join(d, "rec.log")
         code, out, err = impl.run_cli(argv + list(extra) + [mode] + names, cwd=d, env={"PV_REC_LOG": log})
         evs = [json.loads(l) for l in open(log, encoding="utf-8")] if os.path.exists(log) else []
@@ -50,7 +51,7 @@ def _run(case):
 
 
 def coq_rule(rec):
-    pid, fix, level, cbs, default = rec
+    pid, fix, level, cbs, default = rec[:5]
     return (f"(mkRule {cstr(pid.upper())} [] {cbool(default)} {cbool(fix)} {cZ(level)} {cbool('start' in cbs)} {cbool('token' in cbs)} "
             f"{cbool('line' in cbs)} {cbool('complete' in cbs)} [])")
 
@@ -146,7 +147,10 @@ def run(ctx):
         recs = []
         for j, lv in enumerate([0, 1, 2, 3, 5]):
             cbs = ALLCB if (variant // 2 + j) % 3 != 1 else ("start", "token", "complete")
-            recs.append((f"{order[j % 2]}{lv}0{j}", True, lv, cbs, True))
+            # in half of the variants the recorder at the highest level reports a failure while collecting, so that the pass of
+            # that level - the one pass without collectors - is run as well
+            trig = lv == 5 and variant % 2 == 1
+            recs.append((f"{order[j % 2]}{lv}0{j}", True, lv, ALLCB if trig else cbs, True) + ((True,) if trig else ()))
         recs.append(("mmm777", True, 1, ("token",), True))
         recs.append(("nnn888", False, 1, ALLCB, True))       # not fix-capable: must see nothing in fix mode
         return recs
@@ -194,7 +198,8 @@ def run(ctx):
             full = [w for w in dict.fromkeys(e["who"] for e in ph) if set(byid[w][3]) == set(ALLCB)]
             wit = next((w for w in full if w < "MD"), None) or next(iter(full), None)
             wit2 = next((w for w in full if w > "MD"), None) or wit
-            wtoks = [e["tok"] for e in ph if e["who"] == wit and e["cb"] == "token"]
+            tokwit = wit or next((w for w in dict.fromkeys(e["who"] for e in ph) if "token" in byid[w][3]), None)   # a pass whose only participant has no next_line
+            wtoks = [e["tok"] for e in ph if e["who"] == tokwit and e["cb"] == "token"]
             wlines = [e["line"] for e in ph if e["who"] == wit and e["cb"] == "line"]
             wlines2 = [e["line"] for e in ph if e["who"] == wit2 and e["cb"] == "line"]
             if len(wlines2) != len(wlines):
